@@ -307,6 +307,31 @@ def pin_check(prop):
             "axioms": sorted(axioms), "bad_axioms": bad_axioms, "ok": ok, "output": out[-4000:]}
 
 
+def _parse_nested(body):
+    """parse Coq's printing of a list (list N): returns list of lists of ints"""
+    out, cur, depth, num = [], None, 0, ""
+    for ch in body:
+        if ch == "[":
+            depth += 1
+            if depth == 2:
+                cur = []
+        elif ch == "]":
+            if num and cur is not None:
+                cur.append(int(num))
+            num = ""
+            if depth == 2:
+                out.append(cur)
+                cur = None
+            depth -= 1
+        elif ch.isdigit():
+            num += ch
+        else:
+            if num and cur is not None:
+                cur.append(int(num))
+            num = ""
+    return out
+
+
 def coq_eval(prop, header, terms, typ="N", shards=None, per_file_timeout=900):
     """evaluate a list of closed terms with vm_compute, sharded over coqc processes.
     Each term evaluates to an N code (typ='N'); returns the list of ints in order."""
@@ -324,8 +349,8 @@ def coq_eval(prop, header, terms, typ="N", shards=None, per_file_timeout=900):
             f.write(header + "\n")
             f.write("Set Printing Width 1000000.\nSet Printing Depth 1000000.\n")
             for k, t in enumerate(chunks[i]):
-                f.write("Definition case_%d : N := %s.\n" % (k, t))
-            f.write("Definition all_cases : list N := [%s].\n" % "; ".join("case_%d" % k for k in range(len(chunks[i]))))
+                f.write("Definition case_%d : %s := %s.\n" % (k, "N" if typ == "N" else "list N", t))
+            f.write("Definition all_cases : list (%s) := [%s].\n" % ("N" if typ == "N" else "list N", "; ".join("case_%d" % k for k in range(len(chunks[i])))))
             f.write("Eval vm_compute in all_cases.\n")
         try:
             r = subprocess.run(["coqc", "-noglob", "-Q", COQ, "VP", path], capture_output=True, text=True,
@@ -334,11 +359,17 @@ def coq_eval(prop, header, terms, typ="N", shards=None, per_file_timeout=900):
             raise CheckError("coqc timed out on %s" % path)
         if r.returncode != 0:
             raise CheckError("coqc failed on %s:\n%s" % (path, (r.stdout + r.stderr)[-3000:]))
-        m = re.search(r"=\s*\[(.*?)\]\s*(%N)?\s*:\s*list N", r.stdout, flags=re.S)
-        if not m:
-            raise CheckError("cannot parse coqc output: " + r.stdout[-500:])
-        body = m.group(1).strip()
-        vals = [int(x) for x in re.findall(r"\d+", body)] if body else []
+        if typ == "N":
+            m = re.search(r"=\s*\[(.*?)\]\s*(%N)?\s*:\s*list N", r.stdout, flags=re.S)
+            if not m:
+                raise CheckError("cannot parse coqc output: " + r.stdout[-500:])
+            body = m.group(1).strip()
+            vals = [int(x) for x in re.findall(r"\d+", body)] if body else []
+        else:
+            m = re.search(r"=\s*(\[.*\])\s*(%N)?\s*:\s*list \(list N\)", r.stdout, flags=re.S)
+            if not m:
+                raise CheckError("cannot parse coqc output: " + r.stdout[-500:])
+            vals = _parse_nested(m.group(1).replace("%N", ""))
         if len(vals) != len(chunks[i]):
             raise CheckError("coqc returned %d values for %d cases" % (len(vals), len(chunks[i])))
         return vals
